@@ -179,7 +179,8 @@ def run(out, tier, rng, work):
                 'from the application thread or from a timer callback, at instants spread over the job thread\'s sleep; oracle: every group on '
                 'the bus exactly once in a frame of its own format/destination, legal FD length <= 64, skippable padding, minimum priority, '
                 'no later than submit + limit + J, delivered once to the addressed listeners; all handler logs replayed on the Coq model '
-                '(Model22); non-trivial = a frame with more than one group or padding was sent')
+                '(Model22); non-trivial = a frame with more than one group or padding was sent'
+                ' Cyclic application timers on the sending ECU in 30 %.')
     out.assumptions = ['A1-A6 of DESIGN.md section 3', 'FBFF frames are not received by the stack (11-bit ids are dropped by the listener): decoded by the oracle only']
     sprop.run_stateful(out, 'C11', tier, rng, work, FILES, gen, oracle, 120, 3000, nontrivial,
                        sample=lambda sc, res: dict(sends=[e['a'][1:3] + [e['a'][5]['len']] + e['a'][6:8] for e in sc['script'] if e['op'] == 'send'][:5],
